@@ -27,6 +27,28 @@ def pad_rules(chk, repo):
         facts = {nf.attr(arr, 'ndim').single_atom(): C(ndim)}
         _, paths, _ = analyse(repo, f, config={'shape': shape}, facts=facts)
         for p in returns(paths):
+            if nf.strip_apps(p.ret, ('copy', 'm:copy', 'asarray', 'array')) == arr:
+                # the input handed back (copied) as it is: right only when it already has the requested shape on both axes
+                from .. import linear
+                A_ = [nf.index(ashape, C(k + off)) for k in (0, 1)]
+                same = None
+                try:
+                    same = True
+                    for alt in _dnf(p, linear):
+                        lits = [(c, pol) for c, pol in alt if isinstance(c, Poly) and c.single_atom() is not None
+                                and is_app(c.single_atom(), ('lt', 'le', 'eq', 'ne'))]
+                        for cons in linear.conj_constraints(lits):
+                            for k in (0, 1):
+                                d_ = linear.linearise(A_[k]) - linear.linearise(shape.items[k])
+                                if not (linear.entails_with_axioms(cons, d_, _atoms(lits)) and
+                                        linear.entails_with_axioms(cons, d_.scale(-1), _atoms(lits))):
+                                    same = False
+                except linear.NotLinear:
+                    same = None
+                chk.ob('C20-a', 'D-guard', f.key, f'the array is handed back unchanged only when it has the requested shape [ndim={ndim}, {conds_str(p)[:70]}]',
+                       same, '' if same else 'the early return is also taken when only one axis already has its requested length: the other axis is '
+                       'neither padded nor cropped and the result has the wrong shape', f.loc(p.node))
+                continue
             si = unwrap_setitem(p.ret)
             if si is None:
                 raise AnalysisError(f'util.pad: result is not zeros(...)[dest] = array[src]: {fmt(p.ret)}')
